@@ -202,7 +202,7 @@ func (p *c50pert) perturb(class int) {
 	}
 }
 
-const c50HangBound = 45 * time.Second
+const c50HangBound = 120 * time.Second
 
 // c50Run executes the script once. hang is set when a bounded wait expired; the
 // ledger must not be read in that case (blocked goroutines still own parts of it).
